@@ -388,6 +388,20 @@ FUNCS = [
 	     opaque={"{f for f in path.iterdir() if f.suffix in ('.gdb', '.db')}": ('(DIR.filter (fun f => Py.pathSuffix f == ".gdb".toList || Py.pathSuffix f == ".db".toList))', SET(STR)),
 	             "{f for f in path.iterdir() if f.suffix in ('.gs', '.h5')}": ('(DIR.filter (fun f => Py.pathSuffix f == ".gs".toList || Py.pathSuffix f == ".h5".toList))', SET(STR))},
 	     methods={('set', 'pop'): ('(({self}).headD [])', STR, [('({self}).isEmpty', 'KeyError')], [])}),
+	# --- db/models.py: the lineage walk every classification step rests on (`self` is the taxon: a node of the forest)
+	dict(name='taxon_ancestors', file='db/models.py', qual='Taxon.ancestors', module='PyAncestors', env=[ENV_F],
+	     params=[('self_t', TAXON), ('incself', BOOL)], defaults={'incself': False}, ret=LIST(TAXON), generator=TAXON,
+	     self_name='self_t', locals={'taxon': OPT(TAXON)}, fuel='F.size + 1'),
+	# --- util/io.py, cli/common.py: which files a command reads and how they are labelled (C08, C16).  Environment of read_lines: LINES, the
+	#     lines iterating over the opened text file yields; paths are text, `str(Path(p))` is pathlib's normal form `Py.pathStr`
+	dict(name='read_lines', file='util/io.py', qual='read_lines', module='PySeqFiles', env=[('LINES', 'List (List Char)')], strings='plain',
+	     params=[('file_or_path', ('obj',)), ('strip', BOOL), ('skip_empty', BOOL)], defaults={'strip': True, 'skip_empty': False},
+	     ret=LIST(STR), generator=STR, calls={'maybe_open': ('()', ('obj',), [])}, opaque={'file': ('LINES', LIST(STR))}),
+	dict(name='get_sequence_files', file='cli/common.py', qual='get_sequence_files', module='PySeqFiles', env=[('LINES', 'List (List Char)')], strings='plain',
+	     params=[('explicit', OPT(LIST(STR))), ('listfile', OPT(('obj',))), ('listfile_dir', OPT(STR)), ('strip_dir', BOOL), ('strip_ext', BOOL)],
+	     defaults={'explicit': None, 'listfile': None, 'listfile_dir': None, 'strip_dir': True, 'strip_ext': True},
+	     ret=OPT(TUP(LIST(STR), LIST(STR))), paths=True, locals={'ids': LIST(STR), 'paths': LIST(STR)}, calls={'Path': ('(Py.pathStr {0})', STR, [])},
+	     opaque={"SequenceFile.from_paths(paths, 'fasta', 'auto')": ('s.paths', LIST(STR))}),
 ]
 
 EXC = {'ValueError', 'TypeError', 'IndexError', 'KeyError', 'AttributeError', 'AssertionError', 'RuntimeError'}
@@ -467,6 +481,9 @@ class Fn:
 		if e.ty == ty:
 			return e
 		if e.ty == NONE and ty[0] == 'opt':
+			return E('none', ty, e.raises)
+		# `return None, None` where the function otherwise returns a pair: "nothing", declared as an Optional pair
+		if e.ty[0] == 'tuple' and all(t == NONE for t in e.ty[1]) and ty[0] == 'opt' and ty[1][0] == 'tuple' and len(ty[1][1]) == len(e.ty[1]):
 			return E('none', ty, e.raises)
 		if e.ty == NONE and ty == ('pyobj',):
 			return E('Py.Obj.none', ty, e.raises)
@@ -632,6 +649,8 @@ class Fn:
 		if e.ty[0] in ('list', 'set', 'dict', 'bytes', 'str'): return E(f'(!({e.lean}).isEmpty)', BOOL, e.raises)
 		if e.ty == INT: return E(f'(decide ({e.lean} ≠ 0))', BOOL, e.raises)
 		if e.ty[0] == 'opt' and e.ty[1] in (TAXON, GENOME): return E(f'({e.lean}).isSome', BOOL, e.raises)
+		if e.ty[0] == 'opt' and e.ty[1][0] in ('list', 'str'):     # None and the empty sequence are both false
+			return E(f'(!(({e.lean}).getD []).isEmpty)', BOOL, e.raises)
 		raise Untranslatable(f'truth value of {e.ty}')
 
 	def e_BoolOp(self, n):
@@ -672,6 +691,8 @@ class Fn:
 			return r
 		if isinstance(test, ast.UnaryOp) and isinstance(test.op, ast.Not):
 			return self.narrowing(test.operand, not outcome)
+		if isinstance(test, ast.Name) and outcome and self.vars.get(test.id, ('',))[0] == 'opt':
+			return {self.key(test)}
 		return set()
 
 	def e_Compare(self, n):
@@ -753,6 +774,8 @@ class Fn:
 			return E(f'(List.replicate ({b.lean}).toNat {x.lean})', ty, x.raises + b.raises)
 		if a.ty == LIST(INT) and b.ty == INT and isinstance(n.op, ast.Sub):     # NumPy: array - scalar
 			return E(f'(({a.lean}).map (fun (x_ : Int) => x_ - {b.lean}))', LIST(INT), a.raises + b.raises)
+		if a.ty == STR and b.ty == STR and isinstance(n.op, ast.Div) and self.d.get('paths'):     # pathlib: Path(a) / b
+			return E(f'(Py.pathJoin {a.lean} {b.lean})', STR, a.raises + b.raises)
 		if a.ty == b.ty and a.ty[0] in ('list', 'bytes') and isinstance(n.op, ast.Add):
 			return E(f'({a.lean} ++ {b.lean})', a.ty, a.raises + b.raises)
 		raise Untranslatable(f'operator {type(n.op).__name__} on {a.ty}, {b.ty}')
@@ -946,6 +969,16 @@ class Fn:
 				if a.ty == ('sigs',): return E(f'(({a.lean}).items.length : Int)', INT, a.raises)
 				if a.ty[0] not in ('list', 'set', 'dict', 'bytes', 'str'): raise Untranslatable(f'len of {a.ty}')
 				return E(f'(({a.lean}).length : Int)', INT, a.raises)
+			if (name == 'list' and len(args) == 1 and isinstance(args[0], ast.Call) and isinstance(args[0].func, ast.Name) and args[0].func.id == 'map'
+					and len(args[0].args) == 2 and not args[0].keywords and isinstance(args[0].args[0], ast.Name)):
+				fn_, xs = args[0].args[0].id, self.value(args[0].args[1])
+				if xs.ty != LIST(STR): raise Untranslatable(f'map over {xs.ty}')
+				if fn_ == 'str': return E(xs.lean, LIST(STR), xs.raises)        # str of text (of a path in normal form: its text)
+				if fn_ in (self.d.get('calls') or {}):
+					tmpl, ty, rs = self.d['calls'][fn_]
+					if rs or ty != STR: raise Untranslatable(f'map({fn_}, …): only total text functions')
+					return E(f'(({xs.lean}).map (fun x_ => {tmpl.format("x_")}))', LIST(STR), xs.raises)
+				raise Untranslatable(f'map({fn_}, …)')
 			if name == 'list' and len(args) == 1:
 				a = self.value(args[0])
 				if a.ty[0] in ('list', 'set'): return E(a.lean, LIST(a.ty[1]), a.raises)
@@ -970,6 +1003,8 @@ class Fn:
 				# a helper modelled by a template: (lean with {0}…, type, [(raise condition with {0}…, exception)])
 				tmpl, ty, rs = self.d['calls'][name]
 				a = [self.expr(x) for x in args]
+				if name == 'Path' and self.d.get('paths'):      # Path(None) raises TypeError
+					a = [self.coerce(x, STR, 'argument of Path()') for x in a]
 				return E(tmpl.format(*[x.lean for x in a]), ty, guard_all(a) + [(c.format(*[x.lean for x in a]), k) for c, k in rs])
 			if name in self.known:
 				if self.nohoist: raise Untranslatable(f'call of {name} in a conditionally evaluated operand')
@@ -1206,6 +1241,10 @@ class Fn:
 				start = a[1].lean if len(a) > 1 else '(0 : Int)'
 				stop = f'(some {a[2].lean})' if len(a) > 2 else 'none'
 				return E(f'(Py.bytesFind {o.lean} {a[0].lean} {start} {stop})', INT, o.raises + guard_all(a))
+			if o.ty == STR and m == 'strip' and not args and not kw: return E(f'(Py.strStrip {o.lean})', STR, o.raises)
+			if (o.ty == STR and m == 'rstrip' and len(args) == 1 and not kw and isinstance(args[0], ast.Constant) and isinstance(args[0].value, str)
+					and len(args[0].value) == 1):
+				return E(f'(Py.strRstripChar {lean_char(args[0].value)} {o.lean})', STR, o.raises)
 			if o.ty == STR and m == 'split' and len(args) == 1 and not kw and isinstance(args[0], ast.Constant) and isinstance(args[0].value, str) and len(args[0].value) == 1:
 				return E(f'(Py.splitOnChar {lean_char(args[0].value)} {o.lean})', LIST(STR), o.raises)
 			if o.ty == BYTES and m == 'upper' and not args: return E(f'(GambitV.upper {o.lean})', BYTES, o.raises)
@@ -1878,7 +1917,7 @@ def lean_str(v: str) -> str:
 
 
 def lean_char(c: str) -> str:
-	return "'" + (c if (32 <= ord(c) < 127 and c not in "'\\") else f'\\u{{{ord(c):x}}}') + "'"
+	return "'" + (c if (32 <= ord(c) < 127 and c not in "'\\") else (f'\\u{ord(c):04x}' if ord(c) < 0x10000 else None)) + "'"
 
 
 def module_consts(tree: ast.Module) -> dict:
@@ -2062,6 +2101,16 @@ def inline_local_defs(node: ast.FunctionDef) -> ast.FunctionDef:
 	return ast.fix_missing_locations(node)
 
 
+def self_to_name(node: ast.FunctionDef, name: str) -> ast.FunctionDef:
+	"""a method whose object is itself a modelled value (a `Taxon` = a node of the forest): `self` becomes the parameter `name`"""
+	import copy
+
+	class R(ast.NodeTransformer):
+		def visit_Name(self, n):
+			return ast.copy_location(ast.Name(id=name, ctx=n.ctx), n) if n.id == 'self' else n
+	return ast.fix_missing_locations(R().visit(copy.deepcopy(node)))
+
+
 def find_def(tree: ast.Module, qual: str):
 	parts = qual.split('.')
 	body = tree.body
@@ -2128,6 +2177,8 @@ def regenerate(repo: Path, out_dir: Path, stub: set = frozenset()) -> dict:
 				node = rebind_param(node, d['rebind_param'])
 			if d.get('self_as_vars'):
 				node = self_attrs_to_names(node, d['self_as_vars'])
+			if d.get('self_name'):
+				node = self_to_name(node, d['self_name'])
 			fn = Fn(d, node, known)
 			fn.consts = module_consts(tree)
 			out = fn.translate()
